@@ -1128,9 +1128,11 @@ class Executor:
           if dotted in self.world.EXTERNALS:
             cands.append(C.REGISTRY[self.world.EXTERNALS[dotted]])
           else:
+            is_module = isinstance(f.value, ast.Name) and f.value.id in self.world.MODULES
             for q, cc in C.REGISTRY.items():
               q0 = q.split('#')[0]
-              if q0.endswith('.' + f.attr) or q0.endswith('::' + f.attr):
+              if (not is_module and q0.endswith('.' + f.attr)) or \
+                  (is_module and q0.endswith('::' + f.attr)):
                 cands.append(cc)
             if f.attr in self.world.VAL_METHOD_CONTRACTS:
               cands.append(C.REGISTRY[self.world.VAL_METHOD_CONTRACTS[f.attr]])
